@@ -2,8 +2,14 @@
 mod c01;
 mod c02;
 mod c03;
+mod c04;
+mod c11;
+mod c12;
 mod c20;
 mod util;
+
+#[global_allocator]
+static ALLOC: c11::Counting = c11::Counting;
 
 fn main() {
     util::silence_panics();
@@ -12,7 +18,12 @@ fn main() {
         Some("c01") => c01::run(&a[2..]),
         Some("c02") => c02::run(&a[2..]),
         Some("c03") => c03::run("c03", &a[2..]),
+        Some("c11") => c11::run(&a[2..]),
+        Some("c11-shard") => c11::shard(&a[2..]),
+        Some("parse1") => c11::parse1(&a[2..]),
+        Some("c12") => c12::run(&a[2..]),
         Some("c20") => c20::run(&a[2..]),
+        Some("c04-bfs") => c04::run(&a[2..]),
         Some("c04-pairs") => c03::run("c04", &a[2..]),
         _ => {
             eprintln!("usage: rqmc <c01|c02|c03|c04|c11|c12|c20|apply1> ...");
